@@ -170,8 +170,19 @@ def install(R):
             return sum1(E, a) / z3.ToReal(z(a.shape[0]))
         if a.ndim == 2 and axis == 1:
             return row_reduce(E, a, "mean")
+        if a.ndim == 2 and axis == 0:
+            return col_stat(E, a, "mean")
         raise Unsupported("numpy.mean rank %d axis %r" % (a.ndim, axis))
     R.np_mean = np_mean
+
+    def col_stat(E, a, what):
+        """per-column statistic of a matrix (mean / std over the rows): a ghost function of the column; std is non-negative"""
+        f = z3.Function(fresh_name("Col" + what), z3.IntSort(), z3.RealSort())
+        c = z3.Int(fresh_name("cc"))
+        if what == "std":
+            E.axiom(z3.ForAll([c], f(c) >= 0, patterns=[f(c)]))
+        return NdArr.from_fn("col" + what, (a.shape[1],), "real", lambda col: f(col))
+    R.col_stat = col_stat
 
     def np_average(E, a, axis=None, weights=None, **kw):
         """numpy.average(a, weights=w) of vectors: Sum(a*w) / Sum(w) (ZeroDivisionError when the weights sum to zero); the mean without weights"""
